@@ -30,8 +30,10 @@ def gen_ops(rng):
             ops.append("set:%d:%s:%s" % (code, "o" if code in (1, 10) else "s", val_for(rng, code, rng.randint(0, 40)).hex()))
         elif r < 0.65:
             ops.append("set:5:u:%d" % rng.choice([1, 7, 0xffffffff, rng.getrandbits(32) or 1]))
-        elif r < 0.88:
+        elif r < 0.85:
             ops.append("del:%d" % rng.choice([1, 2, 3, 4, 5, 6, 7, 10, 9]))
+        elif r < 0.91:
+            ops.append("rd")           # the body is looked at between two edits (a foreign-order message turns native)
         else:
             ops.append("unk")
     return ops
